@@ -183,3 +183,97 @@ theorem freeChain_spec (fuel : Nat) : ∀ {p p' : P} {cur : Nat}, FatInv p → f
             · intro _; exact this.2.2.1 cur (by simp)
 
 end CfbVerif.Phys
+
+namespace CfbVerif.Phys
+open CfbVerif.Raw
+
+/-- `n` allocations in a row -/
+def allocMany (p : P) : List Init → Outcome (P × List Nat)
+  | [] => .ok (p, [])
+  | k :: ks =>
+    match allocateSector p k with
+    | .ok (p1, id) =>
+      match allocMany p1 ks with
+      | .ok (p2, ids) => .ok (p2, id :: ids)
+      | .err e => .err e
+      | .panic s => .panic s
+      | .hang s => .hang s
+    | .err e => .err e
+    | .panic s => .panic s
+    | .hang s => .hang s
+
+/-- **as many allocations as there are free sectors never grow the file**, and each of them hands
+out a sector whose FAT cell was FREE -/
+theorem allocMany_no_growth (kinds : List Init) : ∀ {p p' : P} {ids : List Nat}, FatInv p →
+    kinds.length ≤ p.free.length → allocMany p kinds = .ok (p', ids) →
+    p'.numSectors = p.numSectors ∧ FatInv p' ∧ p'.free.length + kinds.length = p.free.length ∧
+    ids.length = kinds.length := by
+  induction kinds with
+  | nil =>
+    intro p p' ids inv _ h
+    simp only [allocMany] at h
+    cases h
+    exact ⟨rfl, inv, rfl, rfl⟩
+  | cons k ks ih =>
+    intro p p' ids inv hlen h
+    have hne : p.free ≠ [] := by
+      intro he; rw [he] at hlen; simp at hlen
+    unfold allocMany at h
+    cases h1 : allocateSector p k with
+    | err e => simp [h1] at h
+    | panic s => simp [h1] at h
+    | hang s => simp [h1] at h
+    | ok r =>
+      obtain ⟨p1, id⟩ := r
+      simp only [h1] at h
+      have r1 := allocateSector_reuse inv hne h1
+      have hfl : p1.free.length + 1 = p.free.length := by
+        rw [r1.2.2.2.1, List.length_dropLast]
+        have : 0 < p.free.length := List.length_pos_iff.mpr hne
+        omega
+      cases h2 : allocMany p1 ks with
+      | err e => simp [h2] at h
+      | panic s => simp [h2] at h
+      | hang s => simp [h2] at h
+      | ok r2 =>
+        obtain ⟨p2, ids2⟩ := r2
+        simp only [h2] at h
+        cases h
+        have := ih r1.2.2.2.2.2 (by simp only [List.length_cons] at hlen; omega) h2
+        refine ⟨by rw [this.1, r1.2.2.1], this.2.1, ?_, by simp [this.2.2.2]⟩
+        simp only [List.length_cons]
+        omega
+
+/-- freeing a chain makes the free list longer by at least one (its head), so at least one later
+allocation is served without growth; with `freeChain_spec` this is the step the cycle argument
+repeats -/
+theorem freeChain_free_grows {p p' : P} {start : Nat} (inv : FatInv p) (hs : start ≠ END)
+    (h : freeChainFrom p start = .ok p') : p.free.length < p'.free.length := by
+  have r := freeChain_spec _ inv h
+  have hsub : ∀ i ∈ p.free, i ∈ p'.free := r.2.2.1
+  have hstart : start ∈ p'.free := r.2.2.2 hs
+  have hnot : start ∉ p.free := by
+    intro hm
+    -- a member of the free list has a FREE cell, and `free_chain` refuses a FREE start
+    unfold freeChainFrom freeChain at h
+    rw [if_neg hs] at h
+    cases hn : nextSector p.fat start with
+    | error k => simp [hn] at h
+    | ok next =>
+      simp only [hn] at h
+      rw [if_pos (inv.freeFree start hm)] at h
+      cases h
+  -- p.free ⊆ p'.free, both without duplicates, and `start` is extra
+  have hnd := inv.freeNodup
+  have : (start :: p.free).Nodup := List.nodup_cons.mpr ⟨hnot, hnd⟩
+  have hsub' : ∀ i ∈ start :: p.free, i ∈ p'.free := by
+    intro i hi
+    simp only [List.mem_cons] at hi
+    rcases hi with rfl | hi
+    · exact hstart
+    · exact hsub i hi
+  have hle := List.Nodup.length_le_of_subset this (fun i hi => hsub' i hi)
+  simp only [List.length_cons] at hle
+  omega
+
+end CfbVerif.Phys
